@@ -187,3 +187,31 @@ Theorem C14_calls_after_filters_from_text : forall cfg parse_float regex_ok ffun
             calls st ++ calls_all ffun (f :: fs) (nav_allf parse_float regex_match doc (x :: r) ([], doc)).
 Proof. exact fchain_fun_calls. Qed.
 Print Assumptions C14_calls_after_filters_from_text.
+
+(* An aggregate function after steps and filters (FiltAgg.v): `$` steps-and-filters `.g()` `.f()`… — g is called exactly once, with
+   all the values the steps and filters reach in the order they reach them (or with the elements of the array when the path is
+   single-valued — no filter, wildcard, slice, `..` — and reaches an array), never when they reach nothing; its result is the
+   single result, to which the filter functions after it apply left to right. *)
+From JP Require Import FiltAgg.
+Theorem C14_aggregate_after_filters_from_text : forall cfg parse_float regex_ok ffun afun regex_match,
+  (forall f v w, small v -> ffun f v = Some w -> small w) ->
+  (forall f l w, Forall small l -> afun f l = Some w -> small w) ->
+  forall x r g fs doc st, forallb fstep_ok (x :: r) = true -> forallb (fstep_okp parse_float regex_ok) (x :: r) = true ->
+  forallb fname_ok (g :: fs) = true -> agg_known cfg g = true -> forallb (fun_known cfg) fs = true -> small doc -> ok st ->
+  exists t, parse_with cfg parse_float regex_ok jsonpath_grammar (fchain_fun_path (x :: r) (g :: fs)) = ParseOk t /\
+            match fagg_outcome parse_float ffun afun regex_match (x :: r) g fs doc with
+            | Some w => fst (eval_run ffun afun regex_match t doc st) = OOk [fun_result cfg w]
+            | None => exists e, fst (eval_run ffun afun regex_match t doc st) = OErr e
+            end.
+Proof. exact fchain_agg_retrieval. Qed.
+Print Assumptions C14_aggregate_after_filters_from_text.
+
+(* `$.a[?(@.k)].v.cnt()` : the aggregate receives the `v` of the members that have a `k`, once *)
+Example C14_aggregate_after_filters_example :
+  let doc := VObj [("a", VArr [VObj [("k", VNull); ("v", VNum (num_of_Z 1))]; VObj [("v", VNum (num_of_Z 2))]; VObj [("k", VNull); ("v", VNum (num_of_Z 3))]])]%string in
+  let afun := fun (g : string) (l : list value) => if String.eqb g "cnt" then Some (VNum (num_of_Z (Z.of_nat (List.length l)))) else None in
+  let path := [FS (RPlain (SDot [97%N])); FE [RPlain (SDot [107%N])]; FS (RPlain (SDot [118%N]))] in
+  text_of (fchain_fun_path path [[99; 110; 116]%N]) = "$.a[?(@.k)].v.cnt()"%string /\
+  fagg_input (fun _ => None) (fun _ _ => false) path doc = [VNum (num_of_Z 1); VNum (num_of_Z 3)] /\
+  fagg_outcome (fun _ => None) (fun _ _ => None) afun (fun _ _ => false) path [99; 110; 116]%N [] doc = Some (VNum (num_of_Z 2)).
+Proof. cbv zeta. do 2 (split; [vm_compute; reflexivity|]). vm_compute. reflexivity. Qed.
